@@ -44,8 +44,10 @@ for _pid, _chk in CHECKS.items():
         if ('dbg-asan' in _q or _q == ['rel-asan']) and _rn['harness'] not in ('reread', 'mt_private', 'huge'):
             # ... and 'rel-native': the library exactly as shipped (-O2 -DNDEBUG, no sanitizer instrumentation in the way of the
             # optimiser) under the same workload and the harness's own oracles; crashes are still seen as worker deaths
-            _extra = ['clang-uchar-asan'] + (['rel-native'] if 'rel-native' not in _q else []) + (['clang-msan'] if os.environ.get('VERIF_TRY_MSAN') else [])
-            _rn['configs'] = {'quick': list(_q) + _extra, 'thorough': list(_rn['configs']['thorough']) + _extra}
+            _extra = ['clang-uchar-asan'] + (['rel-native'] if 'rel-native' not in _q else [])
+            # thorough tier: MemorySanitizer as well (clang; every TU instrumented): a branch or address that depends on uninitialised memory
+            _rn['configs'] = {'quick': list(_q) + _extra + (['clang-msan'] if os.environ.get('VERIF_TRY_MSAN') else []),
+                              'thorough': list(_rn['configs']['thorough']) + _extra + ['clang-msan']}
             _mc = dict(_rn.get('max_cases', {}))
             if 'rel-asan' in _mc:
                 _mc['clang-uchar-asan'] = _mc['rel-asan']
@@ -55,7 +57,8 @@ for _pid, _chk in CHECKS.items():
         _chk['runs'] = _new
         _chk['assumptions'] = list(_chk.get('assumptions', [])) + [
             'configuration clang-uchar-asan: the same workload built with clang 14 -funsigned-char under its ASan/UBSan (a second compiler and the char signedness of ARM/PowerPC/RISC-V targets)',
-            'configuration rel-native: the same workload on the library as shipped (gcc -O2 -DNDEBUG, no sanitizer), harness oracles only']
+            'configuration rel-native: the same workload on the library as shipped (gcc -O2 -DNDEBUG, no sanitizer), harness oracles only',
+            'thorough tier: configuration clang-msan (MemorySanitizer, library + runtime + harness instrumented)']
 
 # Thread-compatibility supplement: several threads, each with PRIVATE objects of the property's
 # container family, under ThreadSanitizer (harness/mt_private.c).  Hidden shared state in the library
